@@ -47,6 +47,10 @@ type DelegateSpec struct {
 	Global string
 }
 
+type SepSpec struct {
+	Param, Field string
+}
+
 type WriteSpec struct {
 	Ptr  string
 	N    *CExpr
@@ -79,6 +83,8 @@ type Contract struct {
 	NeedsClean []*DelegateSpec // Callee = parameter name: the pointee must not be stale at the call
 	AtCalls    []*Clause       // Name = callee key; expression over the caller's names and arg0..argN, proved at every such call
 	MapInv     *Clause         // invariant over (key, val) of the maps this function touches: assumed on lookup/range, proved on update
+	Mutable    bool            // the receiver is mutable (not codec metadata)
+	Separate   []*SepSpec      // slice fields whose backing array is a region of its own
 	UseLocals  bool            // assume the local (value-level) clauses of callees too
 	Trust      []string        // obligation kinds assumed instead of proved in this function (reported)
 	Keeps      []*WriteSpec
@@ -411,6 +417,17 @@ func (sp *Specs) parseLine(cur **Contract, line, file string, ln int) error {
 		c.MapInv = cl
 	case "uselocals":
 		c.UseLocals = true
+	case "mutable":
+		// the receiver is an ordinary mutable object, not immutable codec metadata
+		c.Mutable = true
+	case "separate":
+		// separate <param>.<field>: the array behind this slice field is an object of its own
+		// (it overlaps neither *param nor any other object); modelled as a memory region of its own
+		pf := strings.SplitN(strings.TrimSpace(rest), ".", 2)
+		if len(pf) != 2 || pf[0] == "" || pf[1] == "" {
+			return fmt.Errorf("separate needs <param>.<field>")
+		}
+		c.Separate = append(c.Separate, &SepSpec{Param: pf[0], Field: pf[1]})
 	case "trust":
 		c.Trust = append(c.Trust, strings.Fields(rest)...)
 	case "allocsite":
